@@ -139,6 +139,10 @@ struct Spec {
     bcd: f64,
     /// the two vertices `estimate_traversal` is asked about (x, y in degrees)
     od: ((f32, f32), (f32, f32)),
+    /// the query carries a `state_features` section: units ftu/fdu/flu/feu and, when given, the
+    /// initial value of `battery_state`
+    state_features: bool,
+    soc_override: Option<f64>,
 }
 
 fn rec_line(r: &RecSpec) -> String {
@@ -203,7 +207,7 @@ fn case_line(sp: &Spec) -> String {
     }
     let hm = haversine_m(sp);
     format!(
-        "{} {} {} {} {} {} {} {} {} {} {} {} {} {} {} {} {}",
+        "{} {} {} {} {} {} {} {} {} {} {} {} {} {} {} {} {} {}",
         veh,
         q,
         sp.tmsu,
@@ -220,7 +224,11 @@ fn case_line(sp: &Spec) -> String {
         sp.feu,
         edges,
         fbits(sp.bcd),
-        fbits(hm)
+        fbits(hm),
+        match sp.soc_override {
+            None => "n".to_string(),
+            Some(y) => format!("s {}", fbits(y)),
+        }
     )
 }
 
@@ -399,6 +407,24 @@ fn execute(sp: &Spec) -> (String, Outcome) {
         Query::Num(x) => conf["starting_soc_percent"] = serde_json::json!(*x),
         Query::Int(i) => conf["starting_soc_percent"] = serde_json::json!(*i),
     }
+    if sp.state_features {
+        let mut sf = serde_json::Map::new();
+        sf.insert("time".to_string(), serde_json::json!({ "time_unit": sp.ftu, "initial": 0.0 }));
+        sf.insert("distance".to_string(), serde_json::json!({ "distance_unit": sp.fdu, "initial": 0.0 }));
+        if sp.kind != Kind::Bev {
+            sf.insert("energy_liquid".to_string(), serde_json::json!({ "energy_unit": sp.flu, "initial": 0.0 }));
+        }
+        if sp.kind != Kind::Ice {
+            sf.insert("energy_electric".to_string(), serde_json::json!({ "energy_unit": sp.feu, "initial": 0.0 }));
+            if let Some(y) = sp.soc_override {
+                sf.insert(
+                    "battery_state".to_string(),
+                    serde_json::json!({ "type": "soc", "unit": "percent", "format": { "floating_point": { "initial": y } } }),
+                );
+            }
+        }
+        conf["state_features"] = serde_json::Value::Object(sf);
+    }
     let model = match EnergyTraversalModel::new(Arc::new(service), &conf) {
         Ok(m) => m,
         Err(_) => {
@@ -406,29 +432,17 @@ fn execute(sp: &Spec) -> (String, Outcome) {
             return ("rejected".to_string(), out);
         }
     };
-    // the state model: the model's own features, with the units the case asks for (a query may
-    // override the unit of a feature through `state_features`)
-    let features: Vec<(String, StateFeature)> = model
-        .state_features()
-        .into_iter()
-        .map(|(n, f)| {
-            let f2 = match (n.as_str(), f) {
-                ("time", StateFeature::Time { initial, .. }) => StateFeature::Time { time_unit: sp.ftu, initial },
-                ("distance", StateFeature::Distance { initial, .. }) => {
-                    StateFeature::Distance { distance_unit: sp.fdu, initial }
-                }
-                ("energy_liquid", StateFeature::Energy { initial, .. }) => {
-                    StateFeature::Energy { energy_unit: sp.flu, initial }
-                }
-                ("energy_electric", StateFeature::Energy { initial, .. }) => {
-                    StateFeature::Energy { energy_unit: sp.feu, initial }
-                }
-                (_, f) => f,
-            };
-            (n, f2)
-        })
-        .collect();
-    let sm = StateModel::new(features);
+    // the state model, built the way `SearchApp::build_search_instance` builds it: the model's features,
+    // overridden by the query's `state_features`, extend the (empty) base state model
+    let model = Arc::new(model);
+    let tm: Arc<dyn TraversalModel> = model.clone();
+    let features: Vec<(String, StateFeature)> = routee_compass::app::search::search_app_ops::collect_features(
+        &conf,
+        tm,
+        Arc::new(routee_compass_core::model::access::default::no_access_model::NoAccessModel {}),
+    )
+    .expect("collect_features");
+    let sm = StateModel::empty().extend(features).expect("extend");
     let mut state = sm.initial_state().unwrap();
     let v = Vertex::new(0, 0.0, 0.0);
     out.init = read_state(sp, &sm, &state);
@@ -559,8 +573,14 @@ fn oracle(ctx: &mut Ctx, idx: usize, sp: &Spec, oc: &Outcome) {
     if oc.rejected {
         return;
     }
+    // --- a starting charge given through `state_features` is not range-checked
+    if let Some(y) = sp.soc_override {
+        if !(0.0..=100.0).contains(&y) {
+            ctx.fail(idx, "state_features/soc-unchecked", format!("the query's state_features set battery_state to {} and it was accepted; the route starts with charge {}", y, oc.init.soc));
+        }
+    }
     // --- the charge starts at the query's value
-    if battery {
+    if battery && sp.soc_override.is_none() {
         let want = match (&sp.query, q) {
             (_, Some(x)) => Some(x),
             (Query::Absent, _) if sp.kind == Kind::Bev => Some(100.0),
@@ -908,7 +928,7 @@ fn generate(rng: &mut Rng) -> Spec {
     let mut need = 0.0;
     let tmp = Spec {
         kind, rec: rec.clone(), sustain: None, cap: 1.0, bunit, query: Query::Absent, tmsu, grades: grades.clone(), ggu, sdu,
-        speeds: speeds.clone(), esu, edu, etu, ftu: etu, fdu: edu, flu: bunit, feu: bunit, edges: vec![], bcd: 0.0, od: ((0.0, 0.0), (0.0, 0.0)),
+        speeds: speeds.clone(), esu, edu, etu, ftu: etu, fdu: edu, flu: bunit, feu: bunit, edges: vec![], bcd: 0.0, od: ((0.0, 0.0), (0.0, 0.0)), state_features: false, soc_override: None,
     };
     for (id, d) in &edges {
         if *id < n_ids && grades.as_ref().map(|g| *id < g.len()).unwrap_or(true) && speeds[*id] > 0.0 {
@@ -931,10 +951,20 @@ fn generate(rng: &mut Rng) -> Spec {
         Kind::Phev => sustain.as_ref().unwrap().ru.associated_energy_unit(),
         _ => rec.ru.associated_energy_unit(),
     };
-    let (ftu, fdu, flu, feu) = if rng.chance(1, 4) {
+    let state_features = rng.chance(1, 4);
+    let (ftu, fdu, flu, feu) = if state_features {
         (*rng.pick(&T), *rng.pick(&D), *rng.pick(&E), *rng.pick(&E))
     } else {
         (etu, edu, own_liquid, bunit)
+    };
+    let soc_override = if state_features && kind != Kind::Ice && rng.chance(1, 3) {
+        Some(match rng.below(4) {
+            0 => *rng.pick(&[250.0, 100.5, -5.0, -0.001, 1.0e6]),
+            1 => *rng.pick(&[0.0, 100.0]),
+            _ => rng.uniform(0.0, 100.0),
+        })
+    } else {
+        None
     };
     let bcd = if rng.chance(1, 10) { 0.0 } else { rng.uniform(0.0, 30000.0) / si_d(&sdu) };
     let x0 = rng.uniform(-105.5, -104.5) as f32;
@@ -944,7 +974,7 @@ fn generate(rng: &mut Rng) -> Spec {
     } else {
         ((x0, y0), (x0 + rng.uniform(-0.2, 0.2) as f32, y0 + rng.uniform(-0.2, 0.2) as f32))
     };
-    Spec { kind, rec, sustain, cap, bunit, query: gen_query(rng), tmsu, grades, ggu, sdu, speeds, esu, edu, etu, ftu, fdu, flu, feu, edges, bcd, od }
+    Spec { kind, rec, sustain, cap, bunit, query: gen_query(rng), tmsu, grades, ggu, sdu, speeds, esu, edu, etu, ftu, fdu, flu, feu, edges, bcd, od, state_features, soc_override }
 }
 
 fn plain_rec(ru: EnergyRateUnit, a0: f64, a1: f64, a2: f64, ideal: f64, cache: Option<(usize, Vec<i32>)>) -> RecSpec {
@@ -973,6 +1003,8 @@ fn base_spec(kind: Kind, rec: RecSpec, sustain: Option<RecSpec>, cap: f64, bunit
         edges: vec![(0, 1609.34), (1, 1609.34), (2, 1609.34)],
         bcd: 10.0,
         od: ((-105.0, 39.7), (-104.9, 39.75)),
+        state_features: false,
+        soc_override: None,
     }
 }
 
@@ -997,6 +1029,7 @@ fn corpus() -> Vec<Spec> {
     // 4: energy_electric kept in gallons of gasoline (drifted before /repo 7251c8c: add_energy converted the running total there and back)
     let mut s = base_spec(Kind::Bev, plain_rec(kwh, 0.2, 0.001, 3.0, 0.2, None), None, 60.0, EnergyUnit::KilowattHours, Query::Num(80.0));
     s.feu = EnergyUnit::GallonsGasoline;
+    s.state_features = true;
     s.edges = vec![(0, 160934.0), (0, 1.0), (0, 1.0)];
     v.push(s);
     // 5: PHEV runs empty on the first edge and switches to liquid fuel
@@ -1010,6 +1043,11 @@ fn corpus() -> Vec<Spec> {
         v.push(base_spec(Kind::Bev, plain_rec(kwh, 0.2, 0.001, 3.0, 0.2, None), None, 60.0, EnergyUnit::KilowattHours, q.clone()));
         v.push(base_spec(Kind::Phev, plain_rec(kwh, 0.3, 0.0, 3.0, 0.2, None), Some(plain_rec(gas, 0.03, 0.0, 0.3, 0.02, None)), 12.0, EnergyUnit::KilowattHours, q));
     }
+    // witness state_features/soc-unchecked: the query sets the initial battery_state to 250 % through state_features
+    let mut s = base_spec(Kind::Bev, plain_rec(kwh, 0.2, 0.001, 3.0, 0.2, None), None, 60.0, EnergyUnit::KilowattHours, Query::Num(50.0));
+    s.state_features = true;
+    s.soc_override = Some(250.0);
+    v.push(s);
     // regeneration beyond 100 %
     let mut s = base_spec(Kind::Bev, plain_rec(kwh, 0.2, 0.001, 3.0, 0.2, None), None, 0.1, EnergyUnit::KilowattHours, Query::Num(99.0));
     s.edges = vec![(2, 5000.0), (2, 5000.0), (1, 100.0)];
@@ -1062,6 +1100,7 @@ pub fn run(ctx: &mut Ctx) -> &'static str {
                         }
                     }
                     if sp.ftu != sp.etu || sp.fdu != sp.edu { ctx.count("feature_unit_overridden"); }
+                    if sp.soc_override.is_some() { ctx.count("soc_set_through_state_features"); }
                     if format!("{}", sp.tmsu) != format!("{}", sp.esu) { ctx.count("time_model_speed_unit_differs"); }
                     if okn >= 2 { ctx.nontrivial(&line); }
                 }
